@@ -102,7 +102,7 @@ cfg["C08"] = {
     "title": "Plugin resource bookkeeping is exact and reversible", "design_ref": "DESIGN.md §4 C08",
     "runs": [
         {"dir": CPUMEM, "quick": P("VerifAlloc", "c=2,numa=0,b=1,r=1000,grid=1", "c=2,numa=0,b=0,r=500,grid=1", "c=2,numa=1,b=0,r=500")
-                                 + P("VerifRealloc", "c=2,numa=0", "c=2,numa=0,ob=0,mode=1,d=1000", "c=2,numa=0,ob=1,mode=2,d=0", "c=2,numa=0,ob=1,mode=0,d=500,grid=1", "c=2,numa=0,ob=1,or=1500,mode=0,d=-500,grid=1", "c=2,numa=1", "c=2,numa=1,ob=0,mode=1,d=1000"),
+                                 + P("VerifRealloc", "c=2,numa=0", "c=2,numa=0,ob=0,mode=1,d=1000", "c=2,numa=0,ob=1,mode=2,d=0", "c=2,numa=0,ob=1,mode=0,d=500,grid=1", "c=2,numa=0,ob=1,or=1500,mode=0,d=-500,grid=1", "c=2,numa=1", "c=2,numa=1,ob=0,mode=1,d=1000", "c=2,numa=1,ob=1,mode=2,d=0"),
          "thorough": P("VerifAlloc", "c=2,numa=0,b=1,r=1000,grid=1", "c=2,numa=0,b=0,r=500,grid=1", "c=2,numa=1,b=0,r=500", "c=2,numa=1,b=1,r=1000,k=2", "c=2,numa=0,b=1,r=500,k=2,grid=1")
                      + P("VerifRealloc", "c=2,numa=0", "c=2,numa=0,ob=0,mode=1,d=1000", "c=2,numa=0,ob=1,mode=2,d=0", "c=2,numa=0,ob=1,mode=0,d=500,grid=1", "c=2,numa=0,ob=1,or=1500,mode=0,d=-500,grid=1", "c=2,numa=1", "c=2,numa=1,ob=0,mode=1,d=1000",
                          "c=3,numa=0,or=1500", "c=3,numa=0,or=500", "c=2,numa=0,or=500,mp=200", "c=3,numa=0,or=1000,grid=1", "c=2,numa=1,ob=1,mode=2,d=0", "c=2,numa=1,or=2000,d=-1000"), "samples": 2},
@@ -150,7 +150,7 @@ cfg["C17"] = {
 }
 cfg["C20"] = {
     "title": "Cluster operations take locks in one global order", "design_ref": "DESIGN.md §4 C20",
-    "runs": [{"dir": CAL, "quick": P("VerifNodeLocks", "n=3,pods=2,inc=3,op=0", "n=3,pods=2,op=1") + P("VerifWorkloadLocks", "ids=3") + P("VerifReallocOp", "fault=0") + conc((8, 9, 2), (10, 8, 2), (0, 2, 2)),
+    "runs": [{"dir": CAL, "quick": P("VerifNodeLocks", "n=3,pods=2,inc=3,op=0", "n=3,pods=2,op=1") + P("VerifWorkloadLocks", "ids=3", "ids=3,long=1") + P("VerifReallocOp", "fault=0") + conc((8, 9, 2), (10, 8, 2), (0, 2, 2)),
               "thorough": P("VerifNodeLocks", "n=3,pods=2,inc=2,op=0", "n=3,pods=2,op=1", "n=3,pods=3,inc=3,op=0", "n=4,pods=2,inc=3,op=0", "n=3,pods=2,inc=0,op=0") + P("VerifWorkloadLocks", "ids=3", "ids=4") + P("VerifReallocOp", "fault=0") + conc((8, 9, 3), (10, 8, 3), (0, 2, 3), (5, 6, 2), (9, 3, 2)), "samples": 3}],
     "bounds": "node universe of 3-4 nodes over 2-3 pods (symbolic pod assignment), include lists of length <= 3 in any order with repeats, or pod-based selection; workload id lists of length <= 4 over 3 ids in any order with repeats; the sequential operation ReallocResource end to end (pod lock, then workload lock). DEADLOCK FREEDOM of operations whose locking happens inside pool goroutines: pairs of concurrent calls (remove [w1,w2] x remove [w2,w1], dissociate [w2,w1] x remove [w1,w2], remove w1 x realloc w1; thorough: + remove-node x create, remove x realloc) run over blocking locks under bounded symbolic preemption (2, thorough 3): a lock-order inversion shows as a deadlock (hang violation) in some interleaving",
     "outside": "lock sequences of replace, control, send; more than two concurrent calls; lock implementations themselves (C18/C19)",
@@ -169,7 +169,7 @@ create_op = P("VerifCreateOp", "fault=24,count=2", "fault=24,count=2,sched=lazy"
 sched_t = P("VerifRemoveOp", "fault=20,nodes=2,sched=lazy,choices=4", "fault=20,nodes=2,sched=eager,choices=4") + P("VerifDissociateOp", "fault=20,nodes=2,sched=lazy,choices=4") + P("VerifCreateOp", "fault=24,count=2,sched=lazy,choices=2")
 sched_text = ("Goroutines and ants pool tasks are scheduled cooperatively (a goroutine gives up control only where it blocks - channel receive, select, WaitGroup.Wait, Mutex.Lock - where it spawns, and where it ends) under TWO fixed policies: eager (a spawned goroutine runs at once; harness arguments without sched=) and lazy (the spawning side runs on until it blocks, then the oldest runnable goroutine; sched=lazy); "
               "in the thorough tier the first 2-4 scheduling points with several runnable goroutines are additionally SYMBOLIC choices (choices=n: one explored path per candidate). Sends never block (channels are FIFO queues)")
-node_ops = P("VerifAddNodeOp", "fault=6") + P("VerifRemoveNodeOp", "fault=6") + P("VerifSetNodeOp", "fault=8")
+node_ops = P("VerifAddNodeOp", "fault=6", "fault=0,cancel=1") + P("VerifRemoveNodeOp", "fault=6") + P("VerifSetNodeOp", "fault=8")
 ledger_assume = [cal_stubs,
     "abstract ledger world: store = set of workload records with one symbolic scalar resource amount each; resource manager = per-node usage with delta/incr semantics (the real plugin arithmetic is verified in C04/C08 and composed by argument only); engine = set of containers with the amount applied",
     "exactly one fallible model call fails, at a symbolic position among all store/plugin/engine calls the operation makes; every call after the injected fault succeeds (compensating steps succeed)",
@@ -177,8 +177,8 @@ ledger_assume = [cal_stubs,
     "pre-state satisfies usage(node) = sum of recorded workloads (the invariant itself), amounts in [0,2^30]"]
 cfg["C10"] = {
     "title": "Node usage always equals the sum of the workloads recorded on the node", "design_ref": "DESIGN.md §4 C10",
-    "runs": [{"dir": CAL, "inline_go": True, "quick": ops_q + create_op + conc((0, 1, 2), (2, 3, 2), (0, 3, 2), (4, 2, 2)), "thorough": ops_q + create_op + sched_t + P("VerifCreateOp", "fault=30,count=3", "two=1,count=3,slots=3") + conc((0, 1, 3), (2, 3, 3), (0, 3, 3), (4, 2, 3), (0, 2, 3), (1, 6, 2), (3, 6, 2)), "samples": 4}],
-    "bounds": "one inductive step per operation (ReallocResource, RemoveWorkload, DissociateWorkload, CreateWorkload, ReplaceWorkload through the exported API) from an arbitrary ledger state satisfying the invariant (2 workloads on one node, or spread over two nodes by a symbolic choice; create: 2 empty nodes with 0-2 deployable slots each, AUTO, count<=2/3), with no fault or one fault at any call position (<=24), under the eager and the lazy schedule (thorough: plus 2-4 symbolic scheduling choices). CONCURRENT operations on different workloads: " + conc_text + "; pairs remove x remove, realloc x realloc, remove x realloc, dissociate x realloc (thorough: + same-workload remove x realloc, remove/realloc x create)",
+    "runs": [{"dir": CAL, "inline_go": True, "quick": ops_q + create_op + conc((0, 1, 2), (2, 3, 2), (0, 3, 2), (4, 2, 2), (0, 2, 2), (4, 3, 2)), "thorough": ops_q + create_op + sched_t + P("VerifCreateOp", "fault=30,count=3", "two=1,count=3,slots=3") + conc((0, 1, 3), (2, 3, 3), (0, 3, 3), (4, 2, 3), (0, 2, 3), (1, 6, 2), (3, 6, 2)), "samples": 4}],
+    "bounds": "one inductive step per operation (ReallocResource, RemoveWorkload, DissociateWorkload, CreateWorkload, ReplaceWorkload through the exported API) from an arbitrary ledger state satisfying the invariant (2 workloads on one node, or spread over two nodes by a symbolic choice; create: 2 empty nodes with 0-2 deployable slots each, AUTO, count<=2/3), with no fault or one fault at any call position (<=24), under the eager and the lazy schedule (thorough: plus 2-4 symbolic scheduling choices). CONCURRENT operations on different workloads: " + conc_text + "; pairs remove x remove, realloc x realloc, remove x realloc, dissociate x realloc on different workloads and remove x realloc, dissociate x realloc on the SAME workload (thorough: + same-workload remove x realloc, remove/realloc x create)",
     "outside": "whole-API histories, more than two concurrent calls or more than 2-3 preemptions, preemption inside an external call, the real plugin arithmetic (C04/C08), capacity bounds",
     "assumptions": ledger_assume,
 }
